@@ -30,8 +30,30 @@ inductive Op where
   | max | min | cons | prod | lp | div | mul | sub | add | rp
 deriving DecidableEq, Repr
 
+/-- What the final test of `FormulaEvaluator.apply` can see of a float: finite, NaN or ±inf.  (The arithmetic
+model above has no infinities — they only arise from IEEE overflow, which exact arithmetic does not have — but
+the final test is about all three classes.) -/
+inductive FloatClass where
+  | finite (q : Rat)
+  | nan
+  | inf (negative : Bool)
+deriving DecidableEq, Repr
+
 /- Float primitives used by the translated step bodies. -/
 namespace PyF
+
+/-- `math.isnan` / `math.isinf` / `math.isfinite` on the three classes. -/
+def isnanC : FloatClass → Bool
+  | .nan => true
+  | _ => false
+
+def isinfC : FloatClass → Bool
+  | .inf _ => true
+  | _ => false
+
+def isfiniteC : FloatClass → Bool
+  | .finite _ => true
+  | _ => false
 
 def nan : V := none
 
